@@ -71,9 +71,12 @@ def run(ctx):
     ctx.note("judged_per_template", per_tpl)
     ctx.note("ambiguous_for_the_reference_not_judged", ambiguous)
     ctx.note("argument_not_bound_to_model", unbound)
-    ctx.rule("template x argument-type tuples enumerated by TLC (argument types of depth <= 2); judged where the reference "
-             "matcher has a unique answer binding every parameter of the return type; non-trivial = a constructed argument "
-             "type or more than one argument")
+    ctx.rule("template x argument-type tuples enumerated by TLC (argument types of depth <= 2 and nested containers of "
+             "depth 3); judged where the reference matcher has a unique answer binding every parameter of the return type "
+             "(an optional pattern `q?` matches q against the whole argument, so optional / union / nil arguments are "
+             "judged); non-trivial = a constructed argument type or more than one argument")
+    ctx.note("judged_with_nullable_argument_for_optional_pattern",
+             sum(1 for c in cases if c["judged"] and c.get("optnil")))
     ctx.assume("literal widening as in semantic/generic/widening.rs: a parameter bound to a bare literal type is instantiated "
                "with its base type; nested literals are kept")
     ctx.assume("normal forms: union members as a set; an alias reference equals its origin (tpl_pattern_match escapes aliases)")
